@@ -987,7 +987,7 @@ def run(ctx):
         if rule is None and key in table:
             need = table[key].get("guards") or []
             have = site_guards(f, s) if need else []
-            miss = [g for g in need if not any(re.search(g, x) for x in have)]
+            miss = guards_missing(need, have)
             for rg in table[key].get("remote") or []:
                 okr, whyr = remote_guard_holds(f, rg["fn"], rg["guard"])
                 if not okr:
@@ -1187,6 +1187,17 @@ def check_preconditions(ctx, f):
         ctx.floor("R-PANIC", "callers of %s" % short(callee), n, 1)
 
 
+def guards_missing(need, have):
+    """Guard specs not satisfied by the dominating conditions `have`; a spec "2×<regex>" demands two matching conditions."""
+    miss = []
+    for g in need:
+        m = re.match(r"^(\d+)×(.*)$", g, re.S)
+        n, rx = (int(m.group(1)), m.group(2)) if m else (1, g)
+        if sum(1 for x in have if re.search(rx, x)) < n:
+            miss.append(g)
+    return miss
+
+
 def remote_guard_holds(f, fn, rx):
     """In `fn` (closures included) some branch tests a condition matching rx, and one of its edges cannot reach a
     success return — i.e. the function still rejects what the tabled reason says it rejects."""
@@ -1210,3 +1221,37 @@ def remote_guard_holds(f, fn, rx):
             if any(tb not in ok_reach for _, tb in b.switch_edges(bi)):
                 return True, None
     return False, ("the branch exists but none of its edges rejects" if found else "no branch tests " + rx)
+
+
+def check_reachable_sites(ctx, f, entries, what, floor_entries, floor_sites):
+    """The C04 site discipline for another entry set (used by the properties whose statement includes "does not panic")."""
+    ctx.rule("R-PANIC", "panic-capable constructs reachable from %s are discharged or in the reviewed table" % what)
+    cg = CallGraph(f)
+    reach, _ = callback_closure(f, cg, entries)
+    sites = enumerate_sites(f, reach)
+    table = load_table()
+    cl = classify(f, sites)
+    ctx.floor("R-PANIC", "entry points: %s" % what, len(entries), floor_entries)
+    ctx.floor("R-PANIC", "panic-capable sites reachable from them", len(sites), floor_sites)
+    by_key = {}
+    for s, rule, why_ in cl:
+        key = s.key()
+        if rule is None and key in table:
+            need = table[key].get("guards") or []
+            have = site_guards(f, s) if need else []
+            miss = guards_missing(need, have)
+            for rg in table[key].get("remote") or []:
+                okr, whyr = remote_guard_holds(f, rg["fn"], rg["guard"])
+                if not okr:
+                    miss.append("%s: %s" % (short(rg["fn"]), whyr))
+            if miss:
+                why_ = "tabled, but the guard(s) its reason relies on no longer hold: %s" % miss
+            else:
+                rule, why_ = "P2-table", table[key]["reason"]
+        by_key.setdefault(key, []).append((s, rule, why_))
+    for key, lst in by_key.items():
+        bad = [x for x in lst if x[1] is None]
+        s, rule, why_ = (bad or lst)[0]
+        ctx.ob("R-PANIC", key, not bad, "%s in %s cannot fire [%s]" % (s.kind, short(s.fn), rule or why_ or "no rule applies and not in the reviewed table"),
+               where=s.where, detail={"rule": rule, "reason": why_, "operands": s.shape})
+    return reach, sites
